@@ -101,6 +101,7 @@ class World:
         self.zero_waits = 0
         self.creep_iterations = 0
         self.max_events = 2_000_000
+        self.n_events = 0
         self.max_time = 1.0e6
         self.keepalive: list[Any] = []
         self.quiet = False  # all-zero choices (used by sweeps over a pre-drawn scenario)
@@ -178,7 +179,8 @@ class World:
         while self._events and self._events[0][0] <= self.now:
             _, _, cb = heapq.heappop(self._events)
             self.counters["events"] += 1
-            if self.counters["events"] > self.max_events:
+            self.n_events += 1  # the cap is per world: the children of a sweep share `counters` with their parent
+            if self.n_events > self.max_events:
                 raise StepCap(f"world event cap {self.max_events} reached at t={self.now}")
             cb()
             n += 1
